@@ -99,7 +99,11 @@ MACROS = ['M', 'mac', 'x_1', 'from', 'include', 'import', 'mé']
 IMPORTS = [('import', 'math', None), ('import', 'os.path', None), ('import', 'json', 'js'),
            ('import', 'collections.abc', 'cabc'), ('from', 'os.path', None),
            ('from', 'collections.abc', None), ('from', 'xml.dom', 'xdom'),
-           ('from', 'xml.dom.minidom', None), ('import', 'xml.dom.minidom', None)]
+           ('from', 'xml.dom.minidom', None), ('import', 'xml.dom.minidom', None),
+           # aliases spelled like a component of the module path, or like the name bound anyway
+           ('import', 'os.path', 'os'), ('import', 'xml.dom.minidom', 'xml'),
+           ('import', 'xml.dom.minidom', 'minidom'), ('import', 'json', 'json'),
+           ('from', 'os.path', 'path'), ('from', 'xml.dom', 'xml')]
 
 
 # Virtual include files (served by a file reader registered in the forked child), each given as
